@@ -20,3 +20,26 @@ func VerifRBCEncodingPayload(r []byte) []byte {
 func VerifMembershipSyncTopicName(members []uint16) []byte {
 	return membershipSyncTopicName(members)
 }
+
+// VerifTables is a read-only snapshot of the handler tables, for the verification harness.
+type VerifTables struct {
+	Syncs, RBCs, Classifiers []string
+	DKGRunning               bool
+}
+
+func (s *Scheme) VerifTables() VerifTables {
+	s.lock.RLock()
+	defer s.lock.RUnlock()
+	var t VerifTables
+	for k := range s.syncsInProgress {
+		t.Syncs = append(t.Syncs, k)
+	}
+	for k := range s.rbcInProgress {
+		t.RBCs = append(t.RBCs, k)
+	}
+	for k := range s.messageClassifiers {
+		t.Classifiers = append(t.Classifiers, k)
+	}
+	t.DKGRunning = s.dkgRunning
+	return t
+}
